@@ -287,6 +287,9 @@ func run(c *hlib.Ctx) {
 	runDc(c)
 	runConj(c)
 	runC2F(c)
+	// new batches go last so that the case streams of the older kinds stay what they were
+	runMcLattice(c)
+	runMsLattice(c)
 }
 
 // ---- marching cubes: vertex set = sign-changing lattice edges (mc_vertex_iff_sign_change),
